@@ -67,6 +67,43 @@ Definition run_parse (p : ptype) (s : espec) (c : class) (off : N) (d : buf) : o
   let (r, o) := pt_parse p s c d off in OL [ores (pt_out p) r; ON o; ON (pt_size p c)].
 
 (* ---------- tables and iterators (C09) ---------- *)
+(* "walk c1 a1 c2 a2 ...": a script of Iterator calls on one ParsingIterator, with the standard
+   library's provided methods spelled out over next():
+   0 next | 1 nth(a) | 2 by_ref().take(a) | 3 count() | 4 last() | 5 step_by(a).take(64) | 6 skip(a) drained | 7 fold *)
+Fixpoint nums_of (l : list arg) : list N :=
+  match l with AN n :: t => n :: nums_of t | _ => [] end.
+Fixpoint step_items {T} (parse : buf -> M T) (fuel cap : nat) (a : N) (d : buf) (off : N) : list T :=
+  match cap with
+  | O => []
+  | S c => match it_nth parse fuel a d off with
+           | (Some x, o') => x :: step_items parse fuel c a d o'
+           | (None, _) => []
+           end
+  end.
+Fixpoint walk {T} (parse : buf -> M T) (po : T -> out) (d : buf) (fuel : nat) (acts : list N) (off : N) : list out :=
+  match acts with
+  | c :: a :: rest =>
+    let drain o := match iter_collect parse fuel d o with Some l => l | None => [] end in
+    if c =? 0 then let (x, o') := iter_next parse d off in oopt po x :: walk parse po d fuel rest o'
+    else if c =? 1 then let (x, o') := it_nth parse fuel a d off in oopt po x :: walk parse po d fuel rest o'
+    else if c =? 2 then let (l, o') := it_take parse fuel a d off in OL (map po l) :: walk parse po d fuel rest o'
+    else if c =? 3 then [ON (llen (drain off))]
+    else if c =? 4 then [oopt po (last (map Some (drain off)) None)]
+    else if c =? 5 then
+      match iter_next parse d off with
+      | (Some x, o') => [OL (map po (x :: step_items parse fuel 63 (N.pred a) d o'))]
+      | (None, _) => [OL []]
+      end
+    else if c =? 6 then
+      match it_nth parse fuel a d off with
+      | (Some x, o') => [OL (map po (x :: drain o'))]
+      | (None, _) => [OL []]
+      end
+    else if c =? 7 then [OL (map po (drain off))]
+    else [OBad]
+  | _ => []
+  end.
+
 Definition run_table_q (p : ptype) (s : espec) (c : class) (d : buf) (q : list arg) : out :=
   let parse := pt_parse p s c in
   let size := pt_size p c in
@@ -77,6 +114,7 @@ Definition run_table_q (p : ptype) (s : espec) (c : class) (d : buf) (q : list a
     else if String.eqb w "iter" then
       match iter_all parse d with Some l => OL (map (pt_out p) l) | None => OT "fuel" [] end
     else OBad
+  | AW "walk" :: acts => OL (walk parse (pt_out p) d (iter_fuel d) (nums_of acts) 0)
   | [AW w; AN i] =>
     if String.eqb w "get" then ores (pt_out p) (table_get parse size d i)
     else if String.eqb w "nexts" then
